@@ -359,12 +359,61 @@ theorem gbFeatHdr_ok : gbHdrB gbFeatHdr = true ∧ strip (gbFeatHdr.take 12) = "
 theorem gbOriginHdr_ok :
     gbHdrB "ORIGIN".toList = true ∧ strip ("ORIGIN".toList.take 12) = "ORIGIN".toList := by decide
 
+/-- `_to_lines` without the refusals added by the repair (what is left once they have passed) -/
+def gbToLinesCore (name : Str) (content : List Str) (subs : List (Str × List Str)) : Except Err (List Str) :=
+  let name := upper (strip name)
+  if name.isEmpty then .error .valueError else
+  if name = "FEATURES".toList then .ok (("FEATURES".toList ++ List.replicate 13 ' ' ++ "Location/Qualifiers".toList) :: content)
+  else if name = "ORIGIN".toList then .ok ("ORIGIN".toList :: content)
+  else
+    let subs := odOfList (subs.map (fun p => (strip (upper p.1), p.2)))
+    if content.isEmpty ∨ subs.any (·.2.isEmpty) then .error .valueError else
+    let nameCol := (name :: List.replicate (content.length - 1) []) ++
+      subs.flatMap (fun p => (' ' :: ' ' :: p.1) :: List.replicate (p.2.length - 1) [])
+    let contentCol := content ++ subs.flatMap (·.2)
+    .ok (zipCols nameCol contentCol)
+
+/-- whatever `_to_lines` accepts satisfies the two well-formedness conditions: the refusals of the
+repaired code are exactly what the invariant needs -/
+theorem gbToLines_accepts (name : Str) (content : List Str) (subs : List (Str × List Str)) (ins : List Str)
+    (h : gbToLines name content subs = .ok ins) :
+    gbToLinesCore name content subs = .ok ins ∧ GbNameOk name ∧ GbContentOk name content := by
+  unfold gbToLines at h
+  unfold gbToLinesCore
+  simp only at h ⊢
+  split at h
+  · cases h
+  · rename_i hne
+    split at h
+    · cases h
+    · rename_i hnm
+      split at h
+      · cases h
+      · split at h
+        · cases h
+        · rename_i hcont
+          simp only [hne, if_false]
+          refine ⟨h, ⟨by omega, fun e => hnm (Or.inr e)⟩, ?_⟩
+          intro hfo c hc
+          have hall : content.any (fun l => !l.isEmpty && l.head? != some ' ') = false := by
+            cases hq : content.any (fun l => !l.isEmpty && l.head? != some ' ') with
+            | false => rfl
+            | true => exact absurd ⟨hfo, hq⟩ hcont
+          rw [List.any_eq_false] at hall
+          have := hall c hc
+          cases c with
+          | nil => left; rfl
+          | cons a t =>
+            right
+            simpa using this
+
 theorem gbToLines_block (name : Str) (content : List Str) (subs : List (Str × List Str)) (ins : List Str)
-    (h : gbToLines name content subs = .ok ins) (hn : GbNameOk name) (hc : GbContentOk name content) :
+    (h0 : gbToLines name content subs = .ok ins) :
     ∃ b' : GbBlock, GbBlockOk b' ∧ ins = b'.1 :: b'.2 ∧ gbName b' = upper (strip name) := by
+  obtain ⟨h, hn, hc⟩ := gbToLines_accepts name content subs ins h0
   have hn1 : (upper (strip name)).length ≤ 12 := hn.1
   have hn2 : (upper (strip name)).take 2 ≠ ['/', '/'] := hn.2
-  unfold gbToLines at h
+  unfold gbToLinesCore at h
   simp only at h
   split at h
   · cases h
@@ -444,7 +493,7 @@ theorem gbIdx_le (g : Gb) (i : Int) (k : Nat) (h : gbIdx g i false = .ok k) : k 
     · rw [if_neg c2] at h; injection h with h; omega
 
 theorem gb_set_wf (g g' : Gb) (i : Int) (name : Str) (content : List Str) (subs : List (Str × List Str))
-    (hw : GbWF g) (hn : GbNameOk name) (hc : GbContentOk name content)
+    (hw : GbWF g)
     (h : gbSet g i name content subs = .ok g') : GbWF g' := by
   obtain ⟨bs, hrep⟩ := hw
   unfold gbSet at h
@@ -454,7 +503,7 @@ theorem gb_set_wf (g g' : Gb) (i : Int) (name : Str) (content : List Str) (subs 
     split at h
     · cases h
     · rename_i ins hins
-      obtain ⟨b', hb', rfl, hname⟩ := gbToLines_block name content subs ins hins hn hc
+      obtain ⟨b', hb', rfl, hname⟩ := gbToLines_block name content subs ins hins
       have hklt := gbIdx_lt g i k hk
       rw [hrep.pos, gbPosB_length] at hklt
       obtain ⟨pre, b, post, rfl, rfl⟩ := gb_split bs k hklt
@@ -483,7 +532,7 @@ theorem gb_del_wf (g g' : Gb) (i : Int) (hw : GbWF g) (h : gbDel g i = .ok g') :
     exact ⟨_, gbRep_delete g pre post b hrep⟩
 
 theorem gb_insert_wf (g g' : Gb) (i : Int) (name : Str) (content : List Str) (subs : List (Str × List Str))
-    (hw : GbWF g) (hn : GbNameOk name) (hc : GbContentOk name content)
+    (hw : GbWF g)
     (h : gbInsert g i name content subs = .ok g') : GbWF g' := by
   obtain ⟨bs, hrep⟩ := hw
   unfold gbInsert at h
@@ -493,7 +542,7 @@ theorem gb_insert_wf (g g' : Gb) (i : Int) (name : Str) (content : List Str) (su
     split at h
     · cases h
     · rename_i ins hins
-      obtain ⟨b', hb', rfl, hname⟩ := gbToLines_block name content subs ins hins hn hc
+      obtain ⟨b', hb', rfl, hname⟩ := gbToLines_block name content subs ins hins
       have hkle := gbIdx_le g i k hk
       rw [hrep.pos, gbPosB_length] at hkle
       obtain ⟨pre, post, rfl, rfl⟩ := gb_split_le bs k hkle
@@ -506,17 +555,17 @@ theorem gb_insert_wf (g g' : Gb) (i : Int) (name : Str) (content : List Str) (su
       exact ⟨_, gbRep_insert g pre post b' hrep hb'⟩
 
 theorem gb_append_wf (g g' : Gb) (name : Str) (content : List Str) (subs : List (Str × List Str))
-    (hw : GbWF g) (hn : GbNameOk name) (hc : GbContentOk name content)
+    (hw : GbWF g)
     (h : gbAppend g name content subs = .ok g') : GbWF g' :=
-  gb_insert_wf g g' _ name content subs hw hn hc h
+  gb_insert_wf g g' _ name content subs hw h
 
 theorem gb_setField_wf (g g' : Gb) (name : Str) (content : List Str) (subs : List (Str × List Str))
-    (hw : GbWF g) (hn : GbNameOk (upper name)) (hc : GbContentOk (upper name) content)
+    (hw : GbWF g)
     (h : gbSetField g name content subs = .ok g') : GbWF g' := by
   unfold gbSetField at h
   split at h
-  · exact gb_append_wf g g' _ content subs hw hn hc h
-  · exact gb_set_wf g g' _ _ content subs hw hn hc h
+  · exact gb_append_wf g g' _ content subs hw h
+  · exact gb_set_wf g g' _ _ content subs hw h
   · cases h
 
 theorem gbWF_inv (g : Gb) (hw : GbWF g) : g.pos = gbFind g.lines := by
